@@ -3,7 +3,9 @@ package rules
 import (
 	"go/ast"
 	"go/token"
+	"go/types"
 	"sort"
+	"strings"
 
 	"jetverif/an"
 )
@@ -21,6 +23,27 @@ func c12set(c *an.Ctx) {
 	p := c.P
 	eval := p.Eval()
 	nSites := 0
+	stringTypeVars := map[types.Object]bool{}
+	for _, file := range p.Jet.Syntax {
+		for _, d := range file.Decls {
+			gd, ok := d.(*ast.GenDecl)
+			if !ok || gd.Tok != token.VAR {
+				continue
+			}
+			for _, sp := range gd.Specs {
+				vs := sp.(*ast.ValueSpec)
+				for i, name := range vs.Names {
+					if i < len(vs.Values) {
+						if t := c12typeOfExpr(p.Jet.TypesInfo, vs.Values[i]); t != nil {
+							if bt, ok := t.(*types.Basic); ok && bt.Kind() == types.String {
+								stringTypeVars[p.Jet.TypesInfo.Defs[name]] = true
+							}
+						}
+					}
+				}
+			}
+		}
+	}
 	for _, f := range p.Units() {
 		if f.Pkg != p.Jet || f.Body == nil || !eval[f.Root()] && !eval[f] {
 			continue
@@ -51,8 +74,76 @@ func c12set(c *an.Ctx) {
 		}
 		bad := map[token.Pos]string{}
 		badFacts := map[token.Pos][]string{}
+		convArg := map[string]ast.Expr{}
 		recv := func(call *ast.CallExpr) ast.Expr { return an.Unparen(call.Fun).(*ast.SelectorExpr).X }
-		x := p.NewExplorer(f, an.Hooks{Call: func(x *an.Explorer, call *ast.CallExpr, st *an.State) {
+		x := p.NewExplorer(f, an.Hooks{Assign: func(x *an.Explorer, lhs, rhs ast.Expr, stmt ast.Node, st *an.State) {
+			// which conversion produced the current value of a local: k = X.Convert(T)  →  convto:k = T
+			id, ok := an.Unparen(lhs).(*ast.Ident)
+			if !ok {
+				return
+			}
+			lk, ok := x.Key(id)
+			if !ok {
+				return
+			}
+			st.Set("convto:"+lk, "")
+			for rk := range st.Regs {
+				if strings.HasPrefix(rk, "asgn:") {
+					parts := strings.Split(strings.TrimPrefix(rk, "asgn:"), "|")
+					if len(parts) == 3 && (parts[0] == lk || parts[1] == lk || strings.HasPrefix(parts[0], lk+".") || strings.HasPrefix(parts[1], lk+".")) {
+						st.Set(rk, "")
+					}
+				}
+			}
+			if rhs != nil {
+				if cc, ok := an.Unparen(rhs).(*ast.CallExpr); ok && an.CalleeName(info, cc) == "(reflect.Value).Convert" && len(cc.Args) == 1 {
+					st.Set("convto:"+lk, an.Str(cc.Args[0]))
+					convArg[an.Str(cc.Args[0])] = cc.Args[0]
+				}
+			}
+		}, Branch: func(x *an.Explorer, cond ast.Expr, val bool, st *an.State) {
+			// V.Type().AssignableTo(<D.Type()[.Key()|.Elem()]>) found true: remembered in a register (the type may be
+			// held by a local of an if statement's init, whose facts die with its scope)
+			for _, pc := range preds {
+				if an.CalleeName(info, pc) != "(reflect.Type).AssignableTo" || len(pc.Args) != 1 {
+					continue
+				}
+				if t, k := x.Truth(pc, st); !k || !t {
+					continue
+				}
+				vt, ok := an.Unparen(recv(pc)).(*ast.CallExpr)
+				if !ok || an.CalleeName(info, vt) != "(reflect.Value).Type" {
+					continue
+				}
+				arg := an.Unparen(pc.Args[0])
+				if id, ok := arg.(*ast.Ident); ok {
+					if defs := an.LocalDefs(f, an.ObjOf(info, id)); len(defs) == 1 && defs[0] != nil {
+						arg = an.Unparen(defs[0])
+					}
+				}
+				part := ""
+				tc, ok := arg.(*ast.CallExpr)
+				if !ok {
+					continue
+				}
+				if an.CalleeName(info, tc) != "(reflect.Value).Type" {
+					sel, ok := an.Unparen(tc.Fun).(*ast.SelectorExpr)
+					if !ok || len(tc.Args) != 0 {
+						continue
+					}
+					inner, ok := an.Unparen(sel.X).(*ast.CallExpr)
+					if !ok || an.CalleeName(info, inner) != "(reflect.Value).Type" {
+						continue
+					}
+					part, tc = sel.Sel.Name, inner
+				}
+				vk, ok1 := x.Key(recv(vt))
+				dk, ok2 := x.Key(recv(tc))
+				if ok1 && ok2 {
+					st.Set("asgn:"+vk+"|"+dk+"|"+part, "1")
+				}
+			}
+		}, Call: func(x *an.Explorer, call *ast.CallExpr, st *an.State) {
 			if !isSite[call] {
 				return
 			}
@@ -99,6 +190,11 @@ func c12set(c *an.Ctx) {
 				return ok && sel.Sel.Name == part && typeOf(sel.X, dst)
 			}
 			assignable := func(v, dst ast.Expr, part string) bool {
+				if vk, ok := x.Key(v); ok {
+					if dk, ok := x.Key(dst); ok && st.Get("asgn:"+vk+"|"+dk+"|"+part) != "" {
+						return true
+					}
+				}
 				for _, pc := range preds {
 					if an.CalleeName(info, pc) != "(reflect.Type).AssignableTo" || len(pc.Args) != 1 {
 						continue
@@ -113,19 +209,28 @@ func c12set(c *an.Ctx) {
 			}
 			// convertedTo(k, dst, part): k's current value is X.Convert(dst.Type().<part>())
 			convertedTo := func(k, dst ast.Expr, part string) bool {
-				id, ok := an.Unparen(k).(*ast.Ident)
+				kk, ok := x.Key(k)
 				if !ok {
 					return false
 				}
-				for _, d := range an.LocalDefs(f, an.ObjOf(info, id)) {
-					if d == nil {
-						continue
-					}
-					if cc, ok := an.Unparen(d).(*ast.CallExpr); ok && an.CalleeName(info, cc) == "(reflect.Value).Convert" && len(cc.Args) == 1 && sub(cc.Args[0], dst, part) {
-						return true
-					}
+				t := st.Get("convto:" + kk)
+				return t != "" && convArg[t] != nil && sub(convArg[t], dst, part)
+			}
+			// convertedToString(k): k's current value is X.Convert(<the reflect.Type of string>)
+			convertedToString := func(k ast.Expr) bool {
+				kk, ok := x.Key(k)
+				if !ok {
+					return false
 				}
-				return false
+				t := st.Get("convto:" + kk)
+				if t == "" || convArg[t] == nil {
+					return false
+				}
+				tid, ok := an.Unparen(convArg[t]).(*ast.Ident)
+				if !ok {
+					return false
+				}
+				return stringTypeVars[an.ObjOf(info, tid)]
 			}
 			fail := func(msg string) {
 				bad[call.Pos()] = msg
@@ -146,6 +251,10 @@ func c12set(c *an.Ctx) {
 			case "(reflect.Value).SetMapIndex":
 				k, v := call.Args[0], call.Args[1]
 				if c12freshOpenMap(f, dst) {
+					// any value fits an interface{} element; the key must have been made a plain string
+					if !convertedToString(k) {
+						fail("the key " + an.Str(k) + " of a map[string]interface{} is not known to have been converted to string (a key of a named string type is not assignable)")
+					}
 					return
 				}
 				switch {
@@ -181,8 +290,8 @@ func c12set(c *an.Ctx) {
 	c.Expect("C12.set", "reflect.Value.Set / SetMapIndex calls in the evaluator", nSites, 3)
 }
 
-// c12freshOpenMap: dst is a local holding reflect.ValueOf(make(map[string]interface{} …)) — any value fits, and
-// the key is whatever the built-in converted to the key type (C06.conv guards the conversion).
+// c12freshOpenMap: dst is a local holding reflect.ValueOf(make(map[string]interface{} …)) — any value fits (the key
+// is checked by the caller: it must have been converted to string).
 func c12freshOpenMap(f *an.Fn, dst ast.Expr) bool {
 	info := f.Info()
 	id, ok := an.Unparen(dst).(*ast.Ident)
